@@ -16,8 +16,8 @@ def models(tier):
         rng, homes = HOMES[hn]
         nk = len(homes)
         keys = set(range(1, nk + 1))
-        tc = dict(Range=rng, NKeys=nk, Vals={1, 2, 3, 4})
-        for vi, table in enumerate(([{1: 1, 2: 2}, {1: 3, 2: 4}])):
+        tc = dict(Range=rng, NKeys=nk, Vals={1, 2, 3, 4, 5})
+        for vi, table in enumerate(([{1: 5, 2: 2}, {1: 3, 2: 4}])):
             if vi == 1 and (hn not in ("H1", "H3") or tier == "cross"):
                 continue
             ms.append(dict(tag="%s-v%d" % (hn, vi), consts=dict(Range=rng, NKeys=nk, Vals={1, 2}), subst=dict(Home=hn, Keys="KeysN"),
@@ -34,7 +34,7 @@ def _rand(rng, steps, nkeys):
     for s in range(steps):
         r = rng.random()
         k = rng.randint(1, nkeys)
-        if r < 0.45: seg.append(dict(op="put", k=k, v=rng.randint(1, 4)))
+        if r < 0.45: seg.append(dict(op="put", k=k, v=rng.choice([1, 2, 3, 4, 5, 2, 5])))
         elif r < 0.68: seg.append(dict(op="remove", k=k, v=0))
         elif r < 0.90: seg.append(dict(op="get", k=k, v=0))
         elif r < 0.95: seg.append(dict(op="size", k=0, v=0))
@@ -51,6 +51,6 @@ def randoms(tier, rng):
     for (r, nk, nseg, steps) in plan:
         real = r if r else 1000
         out.append(dict(tag="r%d" % r, segs=[_rand(rng, steps, nk) for _ in range(nseg)],
-                        trace_consts=dict(Range=real, NKeys=nk, Vals={1, 2, 3, 4}), trace_subst=dict(Home="HR", Keys="KeysN"),
+                        trace_consts=dict(Range=real, NKeys=nk, Vals={1, 2, 3, 4, 5}), trace_subst=dict(Home="HR", Keys="KeysN"),
                         replays=[dict(tag="r%d" % r, args=(lambda s, t, fl, r=r, nk=nk: [s, t, r, nk, "-", fl]))]))
     return out
